@@ -361,7 +361,8 @@ func ZZ_C12_step_ForceUnstakeMaxPaused() {
 //zz:harness mode=int unwind=60 maxpaths=60000 timebudget=1500 param.committeeshapes=2
 //zz:reach C12.slash2.done C12.slash2.ejected
 func ZZ_C12_step_SlashValidator_v2() {
-	sm, _ := zzFSM(5)
+	// the slash may land in the very block in which the validator finishes unstaking (height 10 / 20)
+	sm, _ := zzFSM([]uint64{5, 10, 20}[zzConcrete(zzInt("height"), 0, 2)])
 	zzProtocol(sm, 2)
 	vals := zzStakingWorld(sm, 1)
 	zzAssume(!vals[0].Delegate)
